@@ -5,6 +5,7 @@ no confirmed hang.  Case sources: mutations of every FEEL text in the repository
 sweeps of every built-in (positional and named) over an extreme alphabet, operator x value-kind matrix, temporal values at
 DST gaps/folds and extreme offsets/years/durations, nesting ramps, parser entry points x parsing scopes.
 Every case runs on both driver builds (release: overflow checks off; checked: overflow checks + debug assertions)."""
+import hashlib
 import os
 import re
 import sys
@@ -152,13 +153,20 @@ def verdict(ctx, case, req, resp, prof):
         if dom is None or dom > DOMAIN_LIMIT:
             ctx.classes["timeout:out-of-domain-iteration(legit long work)"] += 1
             return None, resp
-        kind, r2 = confirm_hang(ctx, prof, req, budget)
+        other = "checked" if prof == "release" else "release"
+        okey = (other, "hang", repr(sorted(req.items(), key=lambda kv: kv[0])))
+        if _CONFIRMED.get(okey, (None,))[0] == "hang":
+            # confirmed as a hang on the other build in this run: the same signature is assigned without three more 10x runs
+            kind, r2 = "hang", None
+        else:
+            kind, r2 = confirm_hang(ctx, prof, req, budget)
         if kind == "hang":
             return Fail("C05/hang/%s" % cls, "[%s] no answer within %.0fs, and 3 more times alone within %.0fs: entry=%s text=%s" % (
                 prof, budget, 10 * budget, req.get("entry"), show(text)), profile=prof, request=small(req)), resp
         if kind == "mixed":
             raise Inconclusive("timeout on %s could not be confirmed (answers within the 10x budget only sometimes)" % show(text))
         ctx.classes["slow(>budget, <10x budget)"] += 1
+        ctx.log("slow but answering [%s]: entry=%s text=%s" % (prof, req.get("entry"), show(text, 160)))
         resp = r2
         if "died" in resp:
             return Fail("C05/abort/%s" % cls, "[%s] process died (exit %s) on entry=%s text=%s" % (
@@ -590,7 +598,9 @@ OTHERS = [
     ("list1000dup", BIGLIST_DUP, None), ("nested", {"l": [N(1), {"l": [N(2), {"l": [N(3), {"l": []}]}]}]}, "[1,[2,[3,[]]]]"), ("nest16", nest_list(16), None), ("nest200", nest_list(200), None),
     ("[null]", {"l": [None]}, "[null]"), ("mixed", {"l": [N(1), {"s": "a"}, True, None, {"l": []}, {"c": []}]}, None),
     ("[\"b\",\"a\"]", {"l": [{"s": "b"}, {"s": "a"}]}, None), ("[true,false]", {"l": [True, False]}, None), ("[ctx]", {"l": [{"c": [["a", N(1)]]}, {"c": [["a", N(2)]]}]}, None),
-    ("[1,1,2,2]", {"l": [N(1), N(1), N(2), N(2)]}, None), ("[big,-big]", {"l": [N("9E+6144"), N("9E+6144"), N("-9E+6144")]}, None),
+    ("[1,1,2,2]", {"l": [N(1), N(1), N(2), N(2)]}, None), ("scrambled40", {"l": [N((i * 17 + 5) % 23) for i in range(40)]}, None),
+    ("list-with-NaN", {"feel": "for i in [3,1,2,5,4,7,6,9,8,11,10,0,13,12,15,14,17,16,19,18,21,20,23,22,5,24,2,1,0,5,5,1,9,7] return if modulo(i,5)=0 then decimal(10**32,5) else i"}, None),
+    ("list-with-Infinity", {"feel": "[10**6144*10, 1, -(10**6144*10), 2, 10**6144*10]"}, None), ("[big,-big]", {"l": [N("9E+6144"), N("9E+6144"), N("-9E+6144")]}, None),
     ("{}", {"c": []}, "{}"), ("{a:1}", {"c": [["a", N(1)]]}, "{a:1}"), ("ctx200", nest_ctx(200), None), ("{\"\":1}", {"c": [["", N(1)]]}, None),
     ("range", {"feel": "[1..5]"}, "[1..5]"), ("range-open", {"feel": "(1..5)"}, "(1..5)"), ("range-rev", {"feel": "[5..1]"}, "[5..1]"),
     ("range-str", {"feel": '["a".."z"]'}, None), ("range-date", {"feel": '[date("2020-01-01")..date("2021-01-01")]'}, None),
@@ -611,7 +621,7 @@ OTHERS = [
 ]
 ALPHABET = NUMS + STRS + OTHERS
 AIDX = {a[0]: i for i, a in enumerate(ALPHABET)}
-CORE = ["nul", "0", "1", "-1", "0.5", "n", "-(n+1)", "n+1", "2^63", "2^64-1", "2^64", "1E+6000", "-0", "\"\"", "\"abc\"", "str1000", "null", "true", "[]", "[1,2,3]", "list1000",
+CORE = ["nul", "list-with-NaN", "scrambled40", "0", "1", "-1", "0.5", "n", "-(n+1)", "n+1", "2^63", "2^64-1", "2^64", "1E+6000", "-0", "\"\"", "\"abc\"", "str1000", "null", "true", "[]", "[1,2,3]", "list1000",
         "nested", "{a:1}", "range", "fn2", "date", "time", "dt-zone", "dtd", "ymd", "dtd-max"]
 
 DATESTR = ["2021-03-28", "999999999-12-31", "-999999999-01-01", "2020-02-29", "2021-02-29", "2021-13-01", "2021-00-00", "0000-01-01", "0999-01-01",
@@ -706,7 +716,10 @@ def S(x):
 KIND = {
     "num": (N(10), []), "scale": (N(2), []), "pos": (N(2), []), "len": (N(1), []), "any": (N(1), []), "bool": (True, []),
     "list": ({"l": [N(1), N(2), N(3)]}, []), "str": (S("abc"), []), "pat": (S("b"), []), "flags": (S("i"), []), "sep": (None, []),
-    "ctx": ({"c": [["a", N(1)]]}, []), "fn": ({"feel": "function(x,y) x < y"}, []),
+    "ctx": ({"c": [["a", N(1)]]}, []),
+    "fn": ({"feel": "function(x,y) x < y"}, [{"feel": f} for f in ("function(x,y) x != y", "function(x,y) true", "function(x,y) x >= y", "function(x,y) modulo(x+y,3)=0",
+                                                                    "function(x,y) null", "function(x,y) x", "function(x) true", "function(x,y,z) true", "function(y,x) x < y")]),
+    "list40": ({"l": [N((i * 17 + 5) % 23) for i in range(40)]}, []),
     "datestr": (S("2021-03-28"), [S(x) for x in DATESTR]), "timestr": (S("02:30:00"), [S(x) for x in TIMESTR]), "durstr": (S("P1D"), [S(x) for x in DURSTR]),
     "dtstr": (S("2021-03-28T01:30:00"), None),   # filled lazily (zone transitions)
     "dateval": ({"date": "2021-03-28"}, []), "timeval": ({"time": "02:30:00"}, []),
@@ -728,7 +741,7 @@ SIG = {
     "list contains": [["list", "any"]], "log": [["num"]], "lower case": [["str"]], "matches": [["str", "pat"], ["str", "pat", "flags"]],
     "max": VAR, "min": VAR, "mean": VAR, "median": VAR, "mode": VAR, "stddev": VAR, "sum": VAR, "modulo": [["num", "num"]], "not": [["bool"]],
     "number": [["numstr", "sep", "sep"]], "odd": [["num"]], "remove": [["list", "pos"]], "replace": [["str", "pat", "str"], ["str", "pat", "str", "flags"]],
-    "reverse": [["list"]], "sort": [["list", "fn"]], "split": [["str", "pat"]], "sqrt": [["num"]], "starts with": [["str", "str"]], "string": [["any"]],
+    "reverse": [["list"]], "sort": [["list40", "fn"]], "split": [["str", "pat"]], "sqrt": [["num"]], "starts with": [["str", "str"]], "string": [["any"]],
     "string length": [["str"]], "sublist": [["list", "pos"], ["list", "pos", "len"]], "substring": [["str", "pos"], ["str", "pos", "len"]],
     "substring after": [["str", "str"]], "substring before": [["str", "str"]],
     "time": [["timestr"], ["hour", "minute", "second"], ["hour", "minute", "second", "offset"]], "union": [["list"], ["list", "list"]],
@@ -800,6 +813,8 @@ def kind_values(kind):
 
 
 def named_kind(fname, pname):
+    if fname == "sort" and pname == "list":
+        return "list40"
     if pname == "from":
         return FROM_KIND.get(fname, "any")
     if fname in ("even", "odd", "exp", "log", "sqrt") and pname == "number":
@@ -825,7 +840,7 @@ def call_text(fname, args, names=None, inline=None):
 def sweep_case(fname, bindings, names=None, wrap="{X}", inline=None, labels=()):
     scope = [[["a%d" % i, b] for i, b in enumerate(bindings)] + ([["E", N("1E+6000")]] if " E" in wrap else [])]
     text = wrap.replace("{X}", call_text(fname, bindings, names, inline))
-    return {"t": text, "es": ["textual"], "s": scope, "sk": "args", "cls": "bif:" + fname, "k": 10 ** 6,
+    return {"t": text, "es": ["textual"], "s": scope, "sk": hashlib.sha1(repr(bindings).encode()).hexdigest()[:12], "cls": "bif:" + fname, "k": 10 ** 6,
             "labels": ["bif:" + fname, "named" if names else "positional"] + list(labels)}
 
 
@@ -859,6 +874,63 @@ def enum_sweeps(ctx):
                         inline = [None] * len(args)
                         inline[i] = lit
                     yield dict(sweep_case(fname, args, names, w, inline, labels=["arg:" + kind]), part="sweep")
+
+
+def enum_at_literals(ctx):
+    """Every temporal string of the kinds above as an @"..." literal, alone and under comparison / subtraction / conversion."""
+    seen = set()
+    for kind in ("datestr", "timestr", "dtstr", "durstr"):
+        for b in kind_values(kind)[1]:
+            t = b["s"]
+            if t in seen or '"' in t or "\\" in t:
+                continue
+            seen.add(t)
+            lit = '@"%s"' % t
+            for w in ("{X}", "{X} = {X}", "{X} < {X}", "{X} - {X}", "string({X})", "{X}.time offset", "{X}.weekday", "{X} + @\"P1D\"", "{X} in [{X}..{X}]"):
+                yield {"t": w.replace("{X}", lit), "es": ["textual"], "s": [], "sk": "", "cls": "at-literal", "k": 10 ** 6, "part": "sweep", "labels": ["at-literal:" + kind]}
+
+
+def enum_escapes(ctx):
+    """String literals with \\u / \\U escapes at the UTF-8 / UTF-16 boundaries, complete and cut short."""
+    four = ["0000", "0001", "007F", "0080", "07FF", "0800", "D7FF", "D800", "DBFF", "DC00", "DFFF", "E000", "FFFD", "FFFE", "FFFF", "00g0", "12", "", "+123", "-001", " 041"]
+    six = ["000000", "00007F", "000080", "0007FF", "000800", "00FFFF", "010000", "10FFFF", "110000", "FFFFFF", "00D800", "00DFFF", "1F640", "1F6400", "", "G00000"]
+    esc = ["\\u" + x for x in four] + ["\\U" + x for x in six]
+    esc += ["\\u" + h + "\\u" + l for h in ("D800", "DBFF", "D83D") for l in ("DC00", "DFFF", "DE40", "0041", "D800", "", "DC0", "E000")]
+    esc += ["\\uD800\\U00DC00", "\\uD83D\\n", "\\uD83D\\", "\\", "\\x41", "\\'", "\\\"", "\\\\", "\\n\\r\\t", "\\u0022", "\\u005C"]
+    for e in esc:
+        for t in ('"%s"', '"a%sb"', '"%s', '{"%s": 1}', '"%s" = "%s"', 'string length("%s")', '@"%s"'):
+            text = t.replace("%s", e)
+            for entry in ("textual", "context", "unary"):
+                yield {"t": text, "es": [entry], "s": [], "sk": "", "cls": "string-escapes", "k": 1, "part": "entries", "labels": ["string-escapes"]}
+
+
+PAIR_VALUES = ["0", "1", "-1", "n", "-n", "n+1", "-(n+1)", "2", "2^63-1", "2^63", "-2^63", "2^64-1", "2^64", "1E+6000", "0.5", "null", "-0", "1000", "-1000"]
+
+
+def enum_pairs(ctx):
+    """Two parameters at a time: quick = the (position, length) pairs of sublist / substring; thorough = every pair of parameters of every signature."""
+    vals = [ALPHABET[AIDX[k]] for k in PAIR_VALUES]
+    for fname, sigs, alts in bifs():
+        variants = [(sig, None) for sig in sigs] + [([named_kind(fname, p) for p in alt], alt) for alt in alts]
+        for sig, names in variants:
+            for i in range(len(sig)):
+                for j in range(i + 1, len(sig)):
+                    if not ctx.thorough() and not (sig[i] == "pos" and sig[j] == "len"):
+                        continue
+                    for which in ("short", "long"):
+                        base = [kind_values(k)[0] for k in sig]
+                        if which == "long":
+                            if sig[0] == "list":
+                                base[0] = BIGLIST
+                            elif sig[0] == "str":
+                                base[0] = BIGSTR
+                            else:
+                                continue
+                        for _, a, _ in vals:
+                            for _, b, _ in vals:
+                                args = list(base)
+                                args[i], args[j] = a, b
+                                yield dict(sweep_case(fname, args, names, "{X}", None, labels=["pair:%s,%s" % (sig[i], sig[j])]), part="sweep")
 
 
 def gen_sweep(src):
@@ -906,8 +978,14 @@ MATRIX = ["0", "1", "-1", "0.5", "2^63", "2^64", "1E+6000", "-1E+6000", "1E-6000
           "ymd-big", "ymd-i64max"]
 
 
+MATRIX_QUICK = ["0", "-1", "0.5", "2^63", "1E+6000", "-0", "\"\"", "\"abc\"", "null", "true", "[]", "[1,2,3]", "nest16", "{a:1}", "range", "range-date", "fn2", "date",
+                "date-max", "time-zone", "time-off", "dt-zone", "dt-max", "dt-262144", "dtd", "dtd-max", "ymd", "ymd-i64max"]
+
+
 def enum_matrix(ctx):
-    vals = [ALPHABET[AIDX[k]] for k in MATRIX if k != "nest200" or DEEP_OK[0]]
+    """thorough: every operator on every ordered pair of MATRIX values; quick: the smaller value set and a seed-rotated third of the operators per pair."""
+    keys = MATRIX if ctx.thorough() else MATRIX_QUICK
+    vals = [ALPHABET[AIDX[k]] for k in keys if k != "nest200" or DEEP_OK[0]]
     # unary forms first
     for lab, b, _ in vals:
         for t in ("-a", "a", "not(a)", "a[1]", "a[-1]", "a[0]", "a[a]", "a.a", "a instance of number", "a instance of list<Any>", "string(a)", "[a]", "{k: a}.k",
@@ -917,14 +995,16 @@ def enum_matrix(ctx):
                   "a in (< a)", "a in (>= a, a)"):
             if lab in ("list1000", "str1000") and ("for" in t or "some" in t or "every" in t):
                 continue
-            yield {"t": t, "es": ["textual"], "s": [[["a", b]]], "sk": "matrix", "cls": "op:unary", "k": 10 ** 6, "part": "matrix", "labels": ["kind:" + lab]}
+            yield {"t": t, "es": ["textual"], "s": [[["a", b]]], "sk": "a=" + lab, "cls": "op:unary", "k": 10 ** 6, "part": "matrix", "labels": ["kind:" + lab]}
         for e in ("unary",):
             for t in ("a", "< a", ">= a", "not(a)", "[a..a]", "(a..a)", "a, a", "not(a, < a)", "-"):
-                yield {"t": t, "es": [e], "s": [[["a", b]]], "sk": "matrix", "cls": "op:unary-tests", "k": 10 ** 6, "part": "matrix", "labels": ["kind:" + lab]}
-    for la, a, _ in vals:
-        for lb, b, _ in vals:
-            for op in OPS2:
-                yield {"t": "a %s b" % op, "es": ["textual"], "s": [[["a", a], ["b", b]]], "sk": "matrix", "cls": "op:" + op, "k": 10 ** 6, "part": "matrix",
+                yield {"t": t, "es": [e], "s": [[["a", b]]], "sk": "a=" + lab, "cls": "op:unary-tests", "k": 10 ** 6, "part": "matrix", "labels": ["kind:" + lab]}
+    for ia, (la, a, _) in enumerate(vals):
+        for ib, (lb, b, _) in enumerate(vals):
+            for io, op in enumerate(OPS2):
+                if not ctx.thorough() and (ia + ib + io + ctx.seed) % 3:
+                    continue
+                yield {"t": "a %s b" % op, "es": ["textual"], "s": [[["a", a], ["b", b]]], "sk": "a=%s,b=%s" % (la, lb), "cls": "op:" + op, "k": 10 ** 6, "part": "matrix",
                        "labels": ["op:" + op]}
 
 
@@ -1051,9 +1131,11 @@ def gen_names(src):
 def enum_entries(ctx):
     """Every entry point x every parsing scope x (every name of the scopes and every unbound shape) x the short templates."""
     short = [t for t in TEMPLATES if t.count("{m}") == 0]
-    for sk in SCOPE_KEYS:
-        for name in UNBOUND + MULTI_NAMES + KEYWORD_NAMES + [b[0] for b in SINGLE]:
-            for t in short:
+    for si, sk in enumerate(SCOPE_KEYS):
+        for ni, name in enumerate(UNBOUND + MULTI_NAMES + KEYWORD_NAMES + [b[0] for b in SINGLE]):
+            for ti, t in enumerate(short):
+                if not ctx.thorough() and (si + ni + ti + ctx.seed) % 4:
+                    continue      # quick: a seed-rotated quarter of the grid
                 text = t.replace("{n}", name)
                 pieces = tokenize(text)
                 yield {"t": text, "es": list(ENTRIES), "s": SCOPES[sk], "sk": sk, "cls": "names", "k": len([p for p in pieces if not p.isspace()]), "part": "entries",
@@ -1086,7 +1168,7 @@ def enum_iteration(ctx, probes):
         for t in ("for i in a..b return i", "for i in b..a return i", "for i in a..a return i", "for i in 1..E return 1", "for i in h..1 return i", "for i in 0.5..2.5 return i",
                   "for i in z..1 return i", "for i in \"a\"..\"c\" return i", "for i in null..1 return i", "for i in d..d return i", "for i in E..E return 1", "for i in -E..E return 1"):
             yield case(t, scope, 3, ["range:bound-names"])
-        for depth in (1, 10, 100, 1000):
+        for depth in (1, 10, 100, 1000, 3000):
             yield case(RECURSION % depth, [], 1, ["recursion-depth:%d" % depth], cls="recursion")
         return
     yield case("for i in %d..%d return i" % (M - 1, M), [], 2, ["range:ends-at-isize-max"])
@@ -1096,7 +1178,8 @@ def enum_iteration(ctx, probes):
         yield case("for i in [1], j in %d..%d return j" % (-M, -M - 1), [], 2, ["range:ends-at-isize-min"])
         yield case("for i in %d..%d return i" % (M, M), [], 1, ["range:ends-at-isize-max"])
     # terminating recursion through a context entry (dynamic scoping makes the function visible to itself)
-    for depth in (10000, 100000):
+    # (depth 10 000 answers in about a second - the scope is searched linearly - and about 10 500 frames fill the 8 MiB stack)
+    for depth in (11000,) + ((100000,) if ctx.thorough() else ()):
         yield case(RECURSION % depth, [], 1, ["recursion-depth:%d" % depth], cls="recursion")
 
 
@@ -1136,9 +1219,17 @@ def want(part):
     return not ONLY or part.name in ONLY
 
 
-def run(ctx):
+def done(ctx, what):
+    ctx.log("%s done: evaluations=%d known=%s" % (what, ctx.evaluations, dict(ctx.excluded_known)))
+
+
+def set_budget(ctx, seconds):
     for prof in ("release", "checked"):
-        ctx.driver(prof).timeout = _budget(ctx)
+        ctx.driver(prof).timeout = seconds
+
+
+def run(ctx):
+    set_budget(ctx, _budget(ctx))
     if ctx.w == 0:
         try:
             c05_harvest.write_seeds()
@@ -1155,15 +1246,12 @@ def run(ctx):
     ctx.extra["zone_transition_instants"] = len(zt())
 
     if want(ctx.p_iter):
-        for prof in ("release", "checked"):
-            ctx.driver(prof).timeout = ITER_BUDGET
+        set_budget(ctx, ITER_BUDGET)
         ctx.enumerate(ctx.p_iter, enum_iteration(ctx, False), name="iteration ranges at the integer edges + recursion depths", batch=1000)
-        ctx.enumerate(ctx.p_iter, enum_iteration(ctx, True), name="iteration ranges ending at isize::MAX/MIN, recursion depth 10^4 and 10^5", batch=1)
-        for prof in ("release", "checked"):
-            ctx.driver(prof).timeout = _budget(ctx)
+        ctx.enumerate(ctx.p_iter, enum_iteration(ctx, True), name="iteration ranges ending at isize::MAX/MIN, recursion depth 11000", batch=1)
+        done(ctx, "iteration")
     if want(ctx.p_ramp) or want(ctx.p_sweep) or want(ctx.p_rsweep) or want(ctx.p_matrix):
-        for prof in ("release", "checked"):
-            ctx.driver(prof).timeout = RAMP_BUDGET
+        set_budget(ctx, RAMP_BUDGET)
         # one probe decides whether values nested 200 deep can be used as arguments everywhere (they cannot while type_of is exponential)
         ctx.enumerate(ctx.p_ramp, [ramp_case(DEEP_PROBE, ["textual"], [[["v", nest_list(200)]]], DEEP_CLS, ["depth:200", "shape:values-type-of"])],
                       name="type of a list nested 200 deep", batch=1)
@@ -1171,29 +1259,45 @@ def run(ctx):
         DEEP_OK[0] = ctx.deep == 200
         ctx.extra["deep_argument_depth"] = ctx.deep
     if want(ctx.p_ramp):
+        # shapes with an open hang/abort finding run one request per batch, so that nothing else is re-run when they time out
+        suspects = {sig.split("/", 2)[2] for sig in ctx.open_sigs if sig.startswith("C05/hang/nesting:") or sig.startswith("C05/abort/nesting:")}
         for d in DEPTHS:
-            ctx.enumerate(ctx.p_ramp, enum_ramps(ctx, d), name="nesting shapes x entry points at depth %d" % d, batch=1000, exhaustive=True)
+            ctx.enumerate(ctx.p_ramp, (c for c in enum_ramps(ctx, d) if c["cls"] not in suspects), name="nesting shapes x entry points at depth %d" % d,
+                          batch=1000, exhaustive=True)
+            ctx.enumerate(ctx.p_ramp, (c for c in enum_ramps(ctx, d) if c["cls"] in suspects), name="nesting shapes x entry points at depth %d" % d, batch=1)
         ctx.enumerate(ctx.p_ramp, enum_deep_values(ctx, ctx.deep), name="built-ins and operators on values nested %d deep" % ctx.deep, batch=1000)
-    for prof in ("release", "checked"):
-        ctx.driver(prof).timeout = _budget(ctx)
+        done(ctx, "ramp")
+    set_budget(ctx, _budget(ctx))
     if want(ctx.p_harvested):
         ctx.enumerate(ctx.p_harvested, enum_harvested(ctx), name="every harvested text through its own entry point and scope", exhaustive=True)
+        done(ctx, "harvested")
     if want(ctx.p_sweep):
-        ctx.enumerate(ctx.p_sweep, enum_sweeps(ctx), name="built-in x signature (positional, named) x parameter x alphabet, one at a time", exhaustive=True)
+        ctx.enumerate(ctx.p_sweep, enum_sweeps(ctx), name="built-in x signature (positional, named) x parameter x alphabet, one at a time", exhaustive=ctx.thorough())
+        ctx.enumerate(ctx.p_sweep, enum_at_literals(ctx), name="temporal strings as @-literals x 9 uses", exhaustive=True)
+        ctx.enumerate(ctx.p_sweep, enum_pairs(ctx), name="two parameters at a time over the integer extremes", exhaustive=ctx.thorough())
+        done(ctx, "sweep")
     if want(ctx.p_matrix):
-        ctx.enumerate(ctx.p_matrix, enum_matrix(ctx), name="operator x value-kind x value-kind matrix", exhaustive=True)
+        ctx.enumerate(ctx.p_matrix, enum_matrix(ctx), name="operator x value-kind x value-kind matrix", exhaustive=ctx.thorough())
+        done(ctx, "matrix")
     if want(ctx.p_entries):
-        ctx.enumerate(ctx.p_entries, enum_entries(ctx), name="entry point x scope x name shape x short template", exhaustive=True)
+        ctx.enumerate(ctx.p_entries, enum_entries(ctx), name="entry point x scope x name shape x short template", exhaustive=ctx.thorough())
+        ctx.enumerate(ctx.p_entries, enum_escapes(ctx), name="string escapes at the UTF-8/UTF-16 boundaries", exhaustive=True)
+        done(ctx, "entries")
     if want(ctx.p_trunc):
         ctx.enumerate(ctx.p_trunc, enum_truncations(ctx), name="truncation at every prefix of harvested texts", exhaustive=ctx.thorough())
+        done(ctx, "truncation")
     if want(ctx.p_mut):
         ctx.forall(ctx.p_mut, ctx.scale(30000, 2000000), batch=500)
+        done(ctx, "mutation")
     if want(ctx.p_rsweep):
         ctx.forall(ctx.p_rsweep, ctx.scale(12000, 800000), batch=400)
+        done(ctx, "sweep-random")
     if want(ctx.p_names):
         ctx.forall(ctx.p_names, ctx.scale(8000, 400000), batch=500)
+        done(ctx, "names")
     if want(ctx.p_uni):
         ctx.forall(ctx.p_uni, ctx.scale(8000, 400000), batch=500)
+        done(ctx, "unicode")
 
 
 if __name__ == "__main__":
